@@ -16,6 +16,7 @@ EXTENDS Naturals, Sequences, FiniteSets, TLC, Json
 
 CONSTANTS RowU, IncU, ExcU,     \* indices into U usable as row values / include values / exclude values
           RowMax,               \* max number of values of the row "os"
+          Row2U, Row2Max,       \* values / max number of values of a second row "node" (empty set: no second row)
           IncKinds, ExcKeys     \* include variants, exclude keys to try
 
 S(t) == [k |-> "s", v |-> t]
@@ -169,8 +170,15 @@ AddRowValue ==
   /\ m.include.k = "none" /\ m.exclude.k = "none"
   /\ \E u \in RowU :
        IF m.rows = <<>> THEN m' = [m EXCEPT !.rows = <<[name |-> "os", lit |-> TRUE, vals |-> <<U[u]>>]>>]
-       ELSE /\ m.rows[1].lit /\ Len(m.rows[1].vals) < RowMax
+       ELSE /\ m.rows[1].lit /\ Len(m.rows[1].vals) < RowMax /\ Len(m.rows) = 1
             /\ m' = [m EXCEPT !.rows[1].vals = Append(@, U[u])]
+\* a second literal row: duplicates are a per-row notion (equal values in DIFFERENT rows are fine)
+AddRow2Value ==
+  /\ m.include.k = "none" /\ m.exclude.k = "none" /\ Len(m.rows) >= 1 /\ m.rows[1].lit
+  /\ \E u \in Row2U :
+       IF Len(m.rows) = 1 THEN m' = [m EXCEPT !.rows = Append(@, [name |-> "node", lit |-> TRUE, vals |-> <<U[u]>>])]
+       ELSE /\ Len(m.rows[2].vals) < Row2Max
+            /\ m' = [m EXCEPT !.rows[2].vals = Append(@, U[u])]
 MakeRowExpr == /\ m = M0 /\ "rowexpr" \in IncKinds
                /\ m' = [m EXCEPT !.rows = <<[name |-> "os", lit |-> FALSE, vals |-> <<>>]>>]
 SetInclude ==
@@ -184,7 +192,7 @@ SetExclude ==
   /\ \/ \E key \in ExcKeys, u \in ExcU : m' = [m EXCEPT !.exclude = [k |-> "list", cs |-> <<Lit(<<<<key, U[u]>>>>)>>]]
      \/ \E u \in ExcU : "two" \in IncKinds /\
           m' = [m EXCEPT !.exclude = [k |-> "list", cs |-> <<Lit(<<<<"os", U[u]>>, <<"ghost", U[1]>>>>), ExprCombo>>]]
-Next == /\ (AddRowValue \/ MakeRowExpr \/ SetInclude \/ SetExclude)
+Next == /\ (AddRowValue \/ AddRow2Value \/ MakeRowExpr \/ SetInclude \/ SetExclude)
         /\ tc' = Vector(m')
 Spec == Init /\ [][Next]_vars
 
@@ -199,8 +207,8 @@ Reverse(s) == [i \in DOMAIN s |-> s[Len(s) + 1 - i]]
 OrderInsensitive ==
   (m.rows # <<>> /\ m.rows[1].lit) =>
      LET r == [m EXCEPT !.rows[1].vals = Reverse(@)] IN
-     /\ {d \in Expected(r) : d.kind # "dup"} = {d \in Expected(m) : d.kind # "dup"}
+     /\ {d \in Expected(r) : d.kind # "dup" \/ d.n # r.rows[1].name} = {d \in Expected(m) : d.kind # "dup" \/ d.n # m.rows[1].name}
      /\ \A v \in Range(m.rows[1].vals) :
-          Cardinality({d \in Expected(r) : d.kind = "dup" /\ StructEq(r.rows[1].vals[d.i], v)})
-          = Cardinality({d \in Expected(m) : d.kind = "dup" /\ StructEq(m.rows[1].vals[d.i], v)})
+          Cardinality({d \in Expected(r) : d.kind = "dup" /\ d.n = r.rows[1].name /\ StructEq(r.rows[1].vals[d.i], v)})
+          = Cardinality({d \in Expected(m) : d.kind = "dup" /\ d.n = m.rows[1].name /\ StructEq(m.rows[1].vals[d.i], v)})
 =============================================================================
